@@ -182,7 +182,8 @@ def gen_call(kind, world, rng, cur_map, cur_items):
         if objs and rng.random() < 0.25:
             objs[rng.randrange(len(objs))] = world.other()          # an element of the wrong kind inside a bulk call
         if q < 0.8:
-            chs = None if rng.random() < 0.5 else [pick_channel(kind, rng, []) for _ in range(k)]
+            # the two lists of a bulk add need not be equally long: the surplus of either is ignored
+            chs = None if rng.random() < 0.5 else [pick_channel(kind, rng, []) for _ in range(max(0, k + rng.choice((0, 0, -1, 1, 3))))]
             return ("add_many", objs, chs)
         return ("assign_pairs", objs, [pick_channel(kind, rng, []) for _ in range(k)])
     k = rng.randrange(0, 4)
